@@ -3,3 +3,4 @@ import Sge.Mint
 import Sge.Core.Run
 import Sge.Ovm
 import Sge.Subaccount
+import Sge.Params
